@@ -110,7 +110,7 @@ func (e *Env) Observe() M {
 	// ----- bank -----
 	bal := M{}
 	e.bk.IterateAllBalances(ctx, func(a sdk.AccAddress, c sdk.Coin) bool {
-		if c.Amount.IsZero() {
+		if c.Amount.IsZero() || c.Denom == bondDenom {
 			return false
 		}
 		k := hx(a)
@@ -123,7 +123,7 @@ func (e *Env) Observe() M {
 	st["bal"] = bal
 	sup := M{}
 	e.bk.IterateTotalSupply(ctx, func(c sdk.Coin) bool {
-		if !c.Amount.IsZero() {
+		if !c.Amount.IsZero() && c.Denom != bondDenom {
 			sup[fmt.Sprint(denomNum(c.Denom))] = is(c.Amount)
 		}
 		return false
